@@ -38,8 +38,6 @@ type c07jump struct {
 	target int // index of the block to jump to (len(blocks) = end of program)
 }
 
-func num(n int64) []byte { return vm.PushDataUint64(uint64(n)) }
-
 // body generates a straight-line-ish body as blocks plus jumps between block boundaries.
 func (g *c07gen) program(depth int, allowLoops bool) []byte {
 	r := g.c.Rng
@@ -293,11 +291,11 @@ func c07one(c *Ctx, k *vmCase, tag string) {
 	}
 	// ---- direct oracle
 	if sink.fired {
-		c.Fail(sigNonTerm, fmt.Sprintf("more than %d instructions traced; limit %d", sink.budget, k.limit))
+		failCapped(c, sigNonTerm, fmt.Sprintf("more than %d instructions traced; limit %d", sink.budget, k.limit))
 		return
 	}
 	if k.limit >= 0 && (gasLeft < 0 || gasLeft > k.limit) {
-		c.Fail(sigInflation, fmt.Sprintf("limit %d gasLeft %d err %s", k.limit, gasLeft, class))
+		failCapped(c, sigInflation, fmt.Sprintf("limit %d gasLeft %d err %s", k.limit, gasLeft, class))
 	}
 	if track {
 		for _, rp := range sink.phiReports {
@@ -307,11 +305,11 @@ func c07one(c *Ctx, k *vmCase, tag string) {
 			}
 			switch {
 			case rp.op == "CHECKMULTISIG" && rp.delta == 0:
-				c.Fail(sigFreeMS, fmt.Sprintf("Φ unchanged by CHECKMULTISIG"))
+				failCapped(c, sigFreeMS, fmt.Sprintf("Φ unchanged by CHECKMULTISIG"))
 			case rp.op == "CHECKPREDICATE":
-				c.Fail(sigCPGain, fmt.Sprintf("Φ changed by %d over one CHECKPREDICATE", -rp.delta))
+				failCapped(c, sigCPGain, fmt.Sprintf("Φ changed by %d over one CHECKPREDICATE", -rp.delta))
 			default:
-				c.Fail(fmt.Sprintf("instruction %s took %d from the potential", rp.op, rp.delta), "every executed instruction must consume at least one unit")
+				failCapped(c, fmt.Sprintf("instruction %s took %d from the potential", rp.op, rp.delta), "every executed instruction must consume at least one unit")
 			}
 		}
 	}
